@@ -122,13 +122,14 @@ def encode_to_dict(obj: Any, refs: Dict[int, Any]):
                     ],
                 }
         elif is_dataclass(obj):
-            value = {
-                "__type": type(obj).__name__,
-                "value": {
-                    k: encode_to_dict(getattr(obj, k), refs)
-                    for k in obj.__dataclass_fields__.keys()
-                },
-            }
+            # A dataclass instance is registered BEFORE its fields are encoded: a field can
+            # lead back to the instance itself (e.g. a flow that keeps, in its context, an
+            # event whose `flow` is that very flow), which then becomes a reference.
+            fields: Dict[str, Any] = {}
+            value = {"__type": type(obj).__name__, "value": fields}
+            refs[obj_id] = value
+            for k in obj.__dataclass_fields__.keys():
+                fields[k] = encode_to_dict(getattr(obj, k), refs)
         elif isinstance(obj, RailsConfig):
             value = {
                 "__type": "RailsConfig",
@@ -206,13 +207,17 @@ def decode_from_dict(d: Any, refs: Dict[int, Any]):
                 value = Action.from_dict(decode_from_dict(d["value"], refs))
 
             elif d_type in name_to_class:
+                # The instance exists (and can be referred to) before its fields are
+                # decoded: a reference met inside the fields may point back to it.
+                cls = name_to_class[d_type]
+                obj = cls.__new__(cls)
+                if "__id" in d:
+                    refs[d["__id"]] = obj
                 args = decode_from_dict(d["value"], refs)
 
                 # Attributes starting with "_" can't be passed to the constructor
                 # for dataclasses, so we set them afterward.
-                obj = name_to_class[d_type](
-                    **{k: v for k, v in args.items() if k[0] != "_"}
-                )
+                obj.__init__(**{k: v for k, v in args.items() if k[0] != "_"})
                 for k in args:
                     if k[0] == "_":
                         setattr(obj, k, args[k])
